@@ -230,6 +230,11 @@ func apply(s []byte, L int, t tamper, r *rand.Rand) []byte {
 			n = o + tagLen + 1
 		case "lasttag":
 			n = len(s) - 1
+		case "aslen": // the stored size of a shorter valid part of the symbolic plaintext length (j, j2)
+			l2 := lenClass{Full: t.J, Extra: t.J2}.n()
+			n = base + tinkHdr + l2 + tagLen*numSeg(l2)
+		case "tagm1":
+			n = base + tinkHdr + tagLen - 1
 		default:
 			panic("trunc unit " + t.Unit)
 		}
